@@ -464,6 +464,7 @@ def interface_memo_obligations(P):
     roots = [(m, m.functions[n], None) for n in ("run_bldfm_single", "run_bldfm_timeseries", "run_bldfm_multitower", "run_bldfm_parallel") if n in m.functions]
     G = ps.CallGraph(P, roots)
     obs = ps.memo_obligations(P, G)
+    obs.extend(ps.mutable_default_obligations(P, G))
     obs.append(req_ob("R-MEMO", "src/bldfm/interface.py::run_bldfm_single (call graph)", "every keyed store into module-level or closure state below the drivers was examined (%d functions, %d stores)" % (len(G.order), len(obs)), True))
     return obs
 
@@ -834,6 +835,36 @@ def geo_obligations(P, rule="R-GEO"):
     x, y = geo_forward(P, lat, lon, rlat, rlon)
     s_f = "src/bldfm/config_parser.py::latlon_to_xy"
     s_g = "src/bldfm/plotting/_geo.py::xy_to_latlon"
+    # the caller's coordinates may be NumPy scalars of different precision (a float32 tower position from a data file, a
+    # Python float reference): an operation that combines two of them directly is carried out in the narrower type, i.e. the
+    # more precise one is rounded first.  Each must be brought to double (math.radians, float, ...) before they meet.
+    import interp as _I
+
+    _I.TRACK_CANCEL = True
+    try:
+        r0 = _single(P, CM.MOD, "latlon_to_xy", [lat, lon, rlat, rlon])
+    finally:
+        _I.TRACK_CANCEL = False
+    params = [lat, lon, rlat, rlon]
+
+    def raw(t):
+        return isinstance(t, tuple) and t[0] == "leaf" and any(t[1] is p for p in params)
+
+    mixed = []
+
+    def scan(t, where):
+        if not isinstance(t, tuple):
+            return
+        if t[0] in ("Add", "Sub", "Mult", "Div") and raw(t[1]) and raw(t[2]) and t[1][1] is not t[2][1]:
+            mixed.append("%s at %s" % (_I.Interp.fterm_str(t), where))
+        for ch in t[1:]:
+            scan(ch, where)
+
+    for e in r0.events:
+        if e[0] == "arith":
+            scan(e[2], e[1])
+    obs.append(req_ob(rule, s_f, "no two caller-supplied coordinates are combined before each is converted to double (a float32 position would otherwise round the reference to single precision)", not mixed,
+                      detail="; ".join(mixed[:2]) or None, key={"clause": "precision"}))
     la, lo = lat.top_atoms().pop(), lon.top_atoms().pop()
     obs.append(eq_ob(rule, s_f, "the reference origin maps to x = 0", x.subs({la: rlat, lo: rlon}), ZERO))
     obs.append(eq_ob(rule, s_f, "the reference origin maps to y = 0", y.subs({la: rlat, lo: rlon}), ZERO))
